@@ -87,6 +87,7 @@ type Gen struct {
 	batchOps   map[int][]Ev
 	iters      []*genIter
 	lastValid  bool
+	pinHook    func(h int, before []int) // C39: called after an iterator was created, with the physical files seen just before
 	noMerge    bool // no MERGE / SINGLEDEL (collapsing ScanInternal does not support them)
 	snapTaint  map[int]bool
 }
@@ -481,6 +482,10 @@ func remove(xs []int, x int) []int {
 }
 
 func (g *Gen) closeIter(it *genIter) {
+	if g.pinHook != nil {
+		// before the Close: the deleter may remove the files the moment Close drops the reference
+		g.R.T.Emit(Ev{"op": "unpin", "h": it.h})
+	}
 	g.R.Exec(Ev{"op": "close", "h": it.h})
 	out := g.iters[:0]
 	for _, x := range g.iters {
@@ -566,7 +571,14 @@ func (g *Gen) iterParams() (lo, hi, mask, kt int, filter bool) {
 func (g *Gen) newIterOn(src int, cls string, batch bool) *genIter {
 	lo, hi, mask, kt, filter := g.iterParams()
 	it := &genIter{h: g.h(), src: src, cls: cls, lo: lo, hi: hi, mask: mask, kt: kt, batch: batch}
+	var before []int
+	if g.pinHook != nil {
+		before = physFiles(g.R.DB)
+	}
 	g.R.Exec(Ev{"op": "newiter", "h": it.h, "src": src, "cls": cls, "lo": lo, "hi": hi, "mask": mask, "kt": kt, "filter": filter})
+	if g.pinHook != nil && src == 0 && g.R.Fatal == nil {
+		g.pinHook(it.h, before)
+	}
 	g.iters = append(g.iters, it)
 	return it
 }
